@@ -138,9 +138,20 @@ class World:
         for part in parts:
             i += 1
             if part == "" or part == ".":
+                if cur and i > 1:
+                    full = "/" + "/".join(cur)
+                    if full not in self.dirs:  # 'x/.' and 'x//' require x to be a directory
+                        if full in self.files:
+                            raise NotADirectoryError(errno.ENOTDIR, "Not a directory", path)
+                        raise FileNotFoundError(errno.ENOENT, "No such file or directory", path)
                 continue
             if part == "..":
                 if cur:
+                    full = "/" + "/".join(cur)
+                    if full not in self.dirs:  # '..' is looked up IN the directory walked so far
+                        if full in self.files:
+                            raise NotADirectoryError(errno.ENOTDIR, "Not a directory", path)
+                        raise FileNotFoundError(errno.ENOENT, "No such file or directory", path)
                     cur.pop()
                 continue
             here = "/" + "/".join(cur) if cur else "/"
